@@ -146,7 +146,7 @@ func (fr *Frame) callAssigns(c *ssa.CallCommon) (map[string]bool, bool) {
 		case a.Model == "allrows":
 			for _, mn := range sortedKeys(ex.S.Models) {
 				md := ex.S.Models[mn]
-				if len(md.Params) > 0 && md.Params[0].Obj {
+				if len(md.Params) > 0 && md.Params[0].Obj && md.Params[0].Name == "o" {
 					an, _ := ex.modelArray(mn)
 					out[an] = true
 				}
@@ -293,6 +293,13 @@ func (fr *Frame) call(in ssa.Instruction, c *ssa.CallCommon) []Val {
 	if h := specialHandler(ci.display); h != nil {
 		return h.run(fr, in, c, ci, args)
 	}
+	if li, self, isUnlock, ok := fr.lockCall(ci.display, c); ok {
+		if isUnlock {
+			fr.lockInvOblige(in, li, self)
+		} else {
+			defer fr.lockInvAssume(li, self)
+		}
+	}
 	ct := ex.findContract(ci)
 	if ct != nil && ct.Inline && ci.fn != nil && len(ci.fn.Blocks) > 0 {
 		if res, ok := fr.tryInline(in, ci.fn, args, nil); ok {
@@ -400,6 +407,7 @@ func (fr *Frame) applyContract(in ssa.Instruction, ci calleeInfo, ct *Contract, 
 			"precondition of "+shortName(ci.display)+": "+rq.Src, pos, rq.Prop)
 		ex.assume(g, fr.curReach)
 	}
+	watermark := ex.lastRef // everything the caller allocated so far pre-exists from the callee's point of view
 	// frame
 	post := pre
 	if !ct.Readonly {
@@ -494,6 +502,7 @@ func (fr *Frame) applyContract(in ssa.Instruction, ci calleeInfo, ct *Contract, 
 	for _, en := range ct.Ensures {
 		ec := fr.evalCtx(post, pre)
 		ec.names = names
+		ec.frameBase = watermark
 		g, err := ec.tryBool(en.E)
 		if err != nil {
 			ex.failOb("contract-typechecks", "post/"+lastSeg(ci.display), err.Error()+" in ensures "+en.Src, pos)
@@ -588,7 +597,7 @@ func (fr *Frame) havocTargets(mem *MemState, targets []AssignTarget, ec *EvalCtx
 			row := rowCtx.objid(rowCtx.eval(a.Arg))
 			for _, mn := range sortedKeys(ex.S.Models) {
 				md := ex.S.Models[mn]
-				if len(md.Params) == 0 || !md.Params[0].Obj {
+				if len(md.Params) == 0 || !(md.Params[0].Obj && md.Params[0].Name == "o") {
 					continue
 				}
 				an, _ := ex.modelArray(mn)
@@ -1068,4 +1077,150 @@ func (ex *Exec) havocLib(mem *MemState) *MemState {
 		}
 	}
 	return nm
+}
+
+// lockCall recognises Lock/Unlock calls on a mutex field that carries a lock invariant.
+func (fr *Frame) lockCall(display string, c *ssa.CallCommon) (*LockInv, Val, bool, bool) {
+	var isUnlock bool
+	switch display {
+	case "sync.(*RWMutex).Lock", "sync.(*RWMutex).RLock", "sync.(*Mutex).Lock":
+	case "sync.(*RWMutex).Unlock", "sync.(*RWMutex).RUnlock", "sync.(*Mutex).Unlock":
+		isUnlock = true
+	default:
+		return nil, Val{}, false, false
+	}
+	if len(c.Args) == 0 {
+		return nil, Val{}, false, false
+	}
+	fa, ok := c.Args[0].(*ssa.FieldAddr)
+	if !ok {
+		return nil, Val{}, false, false
+	}
+	st := fa.X.Type().Underlying().(*types.Pointer).Elem()
+	sn := types.TypeString(st, nil)
+	stt, ok := st.Underlying().(*types.Struct)
+	if !ok {
+		return nil, Val{}, false, false
+	}
+	fname := stt.Field(fa.Field).Name()
+	for i := range fr.ex.S.LockInvs {
+		li := &fr.ex.S.LockInvs[i]
+		if (li.Struct == sn || "package-operator.run/"+li.Struct == sn) && li.Field == fname {
+			return li, fr.val(fa.X), isUnlock, true
+		}
+	}
+	return nil, Val{}, false, false
+}
+
+func (fr *Frame) lockInvOblige(in ssa.Instruction, li *LockInv, self Val) {
+	ex := fr.ex
+	ec := fr.evalCtx(fr.curMem, ex.topEntry)
+	ec.names = map[string]Val{"self": self}
+	ec.goal = true
+	g, err := ec.tryBool(li.Cl.E)
+	if err != nil {
+		ex.failOb("contract-typechecks", "lockinv/"+li.Field, err.Error()+" in "+li.Cl.Src, in.Pos())
+		return
+	}
+	detail := li.Field
+	if k := fr.returnOrdinalOfCurrentBlock(); k > 0 {
+		detail = fmt.Sprintf("%s@return#%d", li.Field, k)
+	}
+	ex.oblige("lockinv", detail, g, fr.curReach, "lock invariant of "+li.Field+" re-established before unlock: "+li.Cl.Src, in.Pos(), li.Cl.Prop)
+}
+
+func (fr *Frame) lockInvAssume(li *LockInv, self Val) {
+	ex := fr.ex
+	ec := fr.evalCtx(fr.curMem, ex.topEntry)
+	ec.names = map[string]Val{"self": self}
+	g, err := ec.tryBool(li.Cl.E)
+	if err != nil {
+		return
+	}
+	ex.assume(g, fr.curReach)
+}
+
+// guardedField: is the field address a lock-guarded field? returns the address term of its mutex.
+func (fr *Frame) guardedField(fa *ssa.FieldAddr) (string, bool) {
+	ex := fr.ex
+	st := fa.X.Type().Underlying().(*types.Pointer).Elem()
+	stt, ok := st.Underlying().(*types.Struct)
+	if !ok {
+		return "", false
+	}
+	sn := types.TypeString(st, nil)
+	fname := stt.Field(fa.Field).Name()
+	for _, g := range ex.S.Guarded {
+		if (g.Struct == sn || "package-operator.run/"+g.Struct == sn) && g.Field == fname {
+			for i := 0; i < stt.NumFields(); i++ {
+				if stt.Field(i).Name() == g.Mutex {
+					return ex.D.fieldAddr(st, i, fr.val(fa.X).T), true
+				}
+			}
+		}
+	}
+	return "", false
+}
+
+// guardedSource: the mutex address if v is (derived by lookups/ranges from) a load of a guarded field.
+func (fr *Frame) guardedSource(v ssa.Value, depth int) (string, bool) {
+	if depth > 4 {
+		return "", false
+	}
+	switch x := v.(type) {
+	case *ssa.UnOp:
+		if fa, ok := x.X.(*ssa.FieldAddr); ok && x.Op == token.MUL {
+			return fr.guardedField(fa)
+		}
+	case *ssa.Lookup:
+		return fr.guardedSource(x.X, depth+1)
+	case *ssa.Extract:
+		switch t := x.Tuple.(type) {
+		case *ssa.Lookup:
+			return fr.guardedSource(t.X, depth+1)
+		case *ssa.Next:
+			if r, ok := t.Iter.(*ssa.Range); ok {
+				return fr.guardedSource(r.X, depth+1)
+			}
+		}
+	}
+	return "", false
+}
+
+func (fr *Frame) heldTerm(mutexAddr string) string {
+	ex := fr.ex
+	an, md := ex.modelArray("held")
+	if md == nil {
+		return "0"
+	}
+	return fmt.Sprintf("(select %s %s)", ex.memGet(fr.curMem, an), mutexAddr)
+}
+
+// returnOrdinalOfCurrentBlock: ordinal (source order) of the return statement ending the current block, 0 if none.
+func (fr *Frame) returnOrdinalOfCurrentBlock() int {
+	var cur *ssa.Return
+	if fr.curBlock != nil && len(fr.curBlock.Instrs) > 0 {
+		cur, _ = fr.curBlock.Instrs[len(fr.curBlock.Instrs)-1].(*ssa.Return)
+	}
+	if cur == nil {
+		return 0
+	}
+	var rets []*ssa.Return
+	for _, b := range fr.fn.Blocks {
+		if b == fr.fn.Recover {
+			continue
+		}
+		for _, in := range b.Instrs {
+			if r, ok := in.(*ssa.Return); ok {
+				rets = append(rets, r)
+			}
+		}
+	}
+	sort.SliceStable(rets, func(i, j int) bool { return rets[i].Pos() < rets[j].Pos() })
+	for i, r := range rets {
+		if r == cur {
+			return i + 1
+		}
+	}
+	return 0
 }
